@@ -134,6 +134,12 @@ func loadProgram(overlay map[string]string) (*loaded, error) {
 		return nil, fmt.Errorf("ast.Parse / ast.VerifParse not found")
 	}
 	l.P.Redirect(ap.Func("Parse"), ap.Func("VerifParse"))
+	// zitiql.ParseZqlDatetime -> table of what the real function returned natively
+	zp := l.pkgs[repoMod+"/zitiql"]
+	if zp == nil || zp.Func("ParseZqlDatetime") == nil || ap.Func("VerifParseZqlDatetime") == nil {
+		return nil, fmt.Errorf("zitiql.ParseZqlDatetime / ast.VerifParseZqlDatetime not found")
+	}
+	l.P.Redirect(zp.Func("ParseZqlDatetime"), ap.Func("VerifParseZqlDatetime"))
 	return l, nil
 }
 
